@@ -207,31 +207,49 @@ func runC13(c *Ctx) {
 		}
 	}
 
-	// ack channel: unbuffered, so an acknowledgement can only be consumed by a DWR that is waiting for it
+	// ack channel: the DWA handler reports without blocking, so the channel needs a slot (an answer dispatched
+	// before the sender waits must not be dropped), and a slot needs a drain before each new request (a banked
+	// surplus answer must not acknowledge a later request)
 	{
-		key := fname(hs) + ":ack-channel-unbuffered"
-		var mk *ssa.MakeChan
-		flow.Instrs(hs, func(in ssa.Instruction) {
-			if m, ok := in.(*ssa.MakeChan); ok {
-				if ch, ok := m.Type().Underlying().(*types.Chan); ok {
-					if st, ok := ch.Elem().Underlying().(*types.Struct); ok && st.NumFields() == 0 {
-						mk = m
-					}
+		key := fname(dwrFn) + ":ack-channel"
+		var ackv ssa.Value
+		if rl.sel != nil {
+			for k, st := range rl.sel.States {
+				if k != rl.timerK && st.Dir == types.RecvOnly {
+					ackv = st.Chan
 				}
 			}
-		})
-		if mk == nil {
-			r.Undecided("R2", key, c.fpos(hs), "cannot find the acknowledgement channel")
+		}
+		mks := c.chanOrigins(ackv, 0, map[ssa.Value]bool{})
+		if ackv == nil || len(mks) == 0 {
+			r.Undecided("R2", key, c.fpos(dwrFn), "cannot find where the acknowledgement channel of the DWR sender is created")
 		} else {
-			k, ok := flow.ConstInt(mk.Size)
+			// drained: a non-blocking receive on the same channel before the first transmission
 			drained := false
-			// or: the DWR sender drains the channel before its first write
-			for _, in := range rl.fn.Blocks[0].Instrs {
-				if s, ok := in.(*ssa.Select); ok && !s.Blocking {
+			flow.Instrs(rl.fn, func(in ssa.Instruction) {
+				sl, ok := in.(*ssa.Select)
+				if !ok || sl.Blocking || len(sl.States) != 1 || sl.States[0].Dir != types.RecvOnly || sl.States[0].Chan != ackv {
+					return
+				}
+				if flow.Dominates(sl, rl.write) && !rl.loop.Blocks[sl.Block()] {
 					drained = true
 				}
+			})
+			for _, mk := range mks {
+				k, ok := flow.ConstInt(mk.Size)
+				switch {
+				case !ok:
+					r.Undecided("R2", key, c.pos(mk), "the capacity of the acknowledgement channel is not a constant")
+				case k == 0:
+					r.Fail("R2", key, c.pos(mk), "the acknowledgement channel is unbuffered while the DWA handler reports without blocking: a DWA dispatched before the sender starts waiting is dropped, and a peer that answers every DWR is retransmitted to and (MaxRetransmits 0) closed")
+				case k == 1 && drained:
+					r.Ok("R2", key, c.pos(mk), "one slot, emptied by a non-blocking receive before the first transmission of each request")
+				case k >= 1 && !drained:
+					r.Fail("R2", key, c.pos(mk), "the acknowledgement channel is buffered and never drained: a surplus or late DWA is banked and acknowledges the next DWR, so a peer that then goes silent is not detected for that request")
+				default:
+					r.Fail("R2", key, c.pos(mk), fmt.Sprintf("the acknowledgement channel has %d slots but only one is emptied before a new request: banked answers acknowledge later requests", k))
+				}
 			}
-			r.Check((ok && k == 0) || drained, "R2", key, c.pos(mk), "the acknowledgement channel is unbuffered (or drained before each request): a stale DWA cannot acknowledge a later DWR", "the acknowledgement channel is buffered and never drained: a surplus or late DWA is banked and acknowledges the next DWR, so a peer that then goes silent is not detected for that request")
 		}
 	}
 
@@ -426,4 +444,125 @@ func (c *Ctx) c13DWR() {
 		r.Check(found, "R4", "sm.New:registers-dwr-handler", c.fpos(nf), "sm.New registers the DWR handler (by name and/or index)", "sm.New does not register the built-in DWR handler: device-watchdog requests go unanswered")
 	}
 	_ = fmt.Sprint
+}
+
+// chanOrigins traces a channel value back to the make(chan) sites it can come from: through phis, parameters
+// (every library call site of the function), closure captures, struct fields and local variables.
+func (c *Ctx) chanOrigins(v ssa.Value, depth int, seen map[ssa.Value]bool) []*ssa.MakeChan {
+	if v == nil || depth > 6 || seen[v] {
+		return nil
+	}
+	seen[v] = true
+	var out []*ssa.MakeChan
+	switch x := v.(type) {
+	case *ssa.MakeChan:
+		return []*ssa.MakeChan{x}
+	case *ssa.ChangeType:
+		return c.chanOrigins(x.X, depth, seen)
+	case *ssa.Phi:
+		for _, e := range x.Edges {
+			out = append(out, c.chanOrigins(e, depth, seen)...)
+		}
+	case *ssa.Parameter:
+		f := x.Parent()
+		idx := paramIndex(f, x)
+		for _, g := range c.P.LibraryFuncs() {
+			for _, ci := range flow.CallInstrs(g) {
+				if flow.StaticCallee(ci) == f && idx < len(ci.Common().Args) {
+					out = append(out, c.chanOrigins(ci.Common().Args[idx], depth+1, seen)...)
+				}
+			}
+			// method values / closures created for f
+			flow.Instrs(g, func(in ssa.Instruction) {
+				if mc, ok := in.(*ssa.MakeClosure); ok && mc.Fn == ssa.Value(f) {
+					_ = mc
+				}
+			})
+		}
+	case *ssa.FreeVar:
+		f := x.Parent()
+		for i, fv := range f.FreeVars {
+			if fv != x {
+				continue
+			}
+			for _, g := range c.P.LibraryFuncs() {
+				flow.Instrs(g, func(in ssa.Instruction) {
+					if mc, ok := in.(*ssa.MakeClosure); ok && mc.Fn == ssa.Value(f) && i < len(mc.Bindings) {
+						out = append(out, c.chanOrigins(mc.Bindings[i], depth+1, seen)...)
+					}
+				})
+			}
+		}
+	case *ssa.UnOp:
+		if x.Op != token.MUL {
+			return nil
+		}
+		switch a := x.X.(type) {
+		case *ssa.Alloc:
+			for _, ref := range flow.Referrers(a) {
+				if st, ok := ref.(*ssa.Store); ok && st.Addr == ssa.Value(a) {
+					out = append(out, c.chanOrigins(st.Val, depth, seen)...)
+				}
+			}
+		case *ssa.FreeVar:
+			// captured by reference: the binding is the variable's address
+			f := a.Parent()
+			for i, fv := range f.FreeVars {
+				if fv != a {
+					continue
+				}
+				for _, g := range c.P.LibraryFuncs() {
+					flow.Instrs(g, func(in ssa.Instruction) {
+						if mc, ok := in.(*ssa.MakeClosure); ok && mc.Fn == ssa.Value(f) && i < len(mc.Bindings) {
+							if al, isAl := mc.Bindings[i].(*ssa.Alloc); isAl {
+								for _, ref := range flow.Referrers(al) {
+									if st, ok := ref.(*ssa.Store); ok && st.Addr == ssa.Value(al) {
+										out = append(out, c.chanOrigins(st.Val, depth+1, seen)...)
+									}
+								}
+							}
+						}
+					})
+				}
+			}
+		case *ssa.FieldAddr:
+			tn, fld, _, ok := flow.FieldOf(x)
+			if !ok {
+				return nil
+			}
+			for _, g := range c.P.LibraryFuncs() {
+				flow.Instrs(g, func(in ssa.Instruction) {
+					st, isSt := in.(*ssa.Store)
+					if !isSt {
+						return
+					}
+					fa, isFA := st.Addr.(*ssa.FieldAddr)
+					if !isFA {
+						return
+					}
+					if t2, f2, ok2 := fieldAddrName(fa); ok2 && t2 == tn && f2 == fld {
+						out = append(out, c.chanOrigins(st.Val, depth+1, seen)...)
+					}
+				})
+			}
+		}
+	}
+	return out
+}
+
+// fieldAddrName: (struct type name, field name) addressed by fa.
+func fieldAddrName(fa *ssa.FieldAddr) (string, string, bool) {
+	pt, ok := fa.X.Type().Underlying().(*types.Pointer)
+	if !ok {
+		return "", "", false
+	}
+	st, ok := pt.Elem().Underlying().(*types.Struct)
+	if !ok {
+		return "", "", false
+	}
+	name := ""
+	if n, ok := pt.Elem().(*types.Named); ok {
+		name = n.Obj().Name()
+	}
+	return name, st.Field(fa.Field).Name(), true
 }
